@@ -45,7 +45,7 @@ impl FromStr for Latin1 {
     type Err = Error;
 
     fn from_str(s: &str) -> Result<Latin1, Error> {
-        let length = s.len();
+        let length = s.chars().count();
         if length > 150 {
             return Err(Error::TooLong(length));
         }
